@@ -18,7 +18,9 @@
 
    Level I: main.c parse_args (the include_paths array it builds) and
      preprocess.c: the #include / #include_next branches of preprocess2,
-     search_include_paths with its file-name cache, search_include_next with
+     search_include_paths with its file-name cache (filled and consulted only for
+     lookups through include_paths, i.e. AFTER the includer's directory has been
+     tried for the quote form), search_include_next with
      include_next_idx, include_file with the pragma_once table and the
      include_guards memo fed by detect_include_guard.
 
@@ -32,13 +34,14 @@
    are the sensitivity controls: TLC must reject them).                      *)
 EXTENDS Integers, Sequences, SequencesExt, FiniteSets, TLC, Json, CSV, IOUtils
 
-CONSTANTS Fam,          \* "R1" | "R2" | "G" | "P" : scenario family
+CONSTANTS Fam,          \* "R1" | "R2" | "C" | "G" | "P" : scenario family
           NOpt,         \* option directories 1..NOpt
           Seed, Stride, \* scenario i is explored iff (i * 7919 + Seed) % Stride = 0
           GuardAlg,     \* "pinned" | "toknext" | "full"   (detect_include_guard)
           NextAlg,      \* "global" (pinned include_next_idx) | "perfile" (repaired)
           FixIdirArg,   \* FALSE: -idirafter pushes the option string and skips the directory
           FixIdirOrder, \* FALSE: -idirafter directories precede the system directory
+          CacheFirst,   \* TRUE (control): the file-name cache is consulted before the includer's directory
           MaxStack,     \* include depth at which a run is cut off (pinned tree recurses for ever)
           Emit
 
@@ -112,6 +115,12 @@ ScenariosOf(fam) ==
          {Sc(k, <<>>, pa, sa, pb, sb, <<m, MainEnd>>) :
             k \in KindSeqs, pa \in (SUBSET Dirs) \ {{}}, sa \in {"incbQ", "incbA", "incbnext"},
             pb \in (SUBSET Dirs) \ {{}}, sb \in {"plain", "next"}, m \in {Inc("Q", "a"), Inc("A", "a")}}
+    [] fam = "C" ->     \* a name is first resolved through the search list (filling the file-name cache), then a
+                        \* header that may have its own copy beside it asks for it with the quote form - and the reverse order
+         {Sc(k, <<>>, pa, "incbQ", pb, "plain", m \o <<MainEnd>>) :
+            k \in KindSeqs, pa \in (SUBSET Dirs) \ {{}}, pb \in (SUBSET Dirs) \ {{}},
+            m \in {<<Inc(fb, "b"), Inc(fa, "a")>> : fb \in {"Q", "A"}, fa \in {"Q", "A"}}
+                  \cup {<<Inc(fa, "a"), Inc(fb, "b")>> : fb \in {"Q", "A"}, fa \in {"Q", "A"}}}
     [] fam = "G" ->     \* guard shapes x every short including program
          {Sc([i \in 1..NOpt |-> "I"], <<>>, {loc}, sa, {}, "plain", m \o <<MainEnd>>) :
             loc \in {0, 1}, sa \in {"plain", "guard", "gtrail", "gnest", "gelse", "gtext", "gself", "once", "oncetrail"},
@@ -245,8 +254,10 @@ IncludeI(sc, m, form, n, curDir, curNidx, isNext) ==
        IN IF p = 0 THEN Fail(m, "notfound")
           ELSE IF NextAlg = "perfile" THEN IncludeFileI(sc, m, list[p], n, p + 1)
           ELSE IncludeFileI(sc, [m EXCEPT !.idx = p], list[p], n, 0)
+  ELSE IF CacheFirst /\ Has(m.cache, n)                          \* control: a cached include-path hit wins over the file beside the includer
+  THEN LET e == Get(m.cache, n) IN IncludeFileI(sc, m, list[e.p], n, e.p + 1)
   ELSE IF form = "Q" /\ Exists(sc, curDir, n)
-  THEN IncludeFileI(sc, m, curDir, n, 1)                       \* includer's directory: no cache, idx untouched
+  THEN IncludeFileI(sc, m, curDir, n, 1)                       \* includer's directory first: no cache lookup, no cache entry
   ELSE LET r == SearchI(sc, m, n) IN
        IF r[1] = 0 THEN Fail(m, "notfound")
        ELSE IncludeFileI(sc, r[2], list[r[1]], n, r[1] + 1)
